@@ -17,9 +17,10 @@ RULE_MULTI = (" Constraint LISTS (the `last_change` dict of project_by_dykstra i
               "family's constraint listed twice / three times (shared slots), two DIFFERENT constraints of one family "
               "(separate slots), two joint unimodalities on the same dims with equal / opposite directions and with "
               "permuted dims; model vs real at 1,2,3,5 iterations and the convergence oracle on each class. (d,d) "
-              "dominance / joint-monotonicity pairs wherever verify_hyperparameters accepts them (oracle only: a kernel "
-              "that does not depend on feature d must stay unchanged, no exception). Joint unimodality directions "
-              "in every accepted spelling ('valley', 'Valley', 'PEAK', ...).")
+              "dominance / joint-monotonicity pairs must be REJECTED with ValueError by verify_hyperparameters, "
+              "LatticeConstraints and Lattice.build (fix 18dd711). Joint unimodality directions in every accepted spelling "
+              "('valley', 'Valley', 'PEAK', ...: the projection lower-cases them since cdf6c9e), in the correspondence, "
+              "the convergence oracle and mixed inside one list ('valley' + 'Valley' = one constraint listed twice).")
 RULE = ("lattice configs (rank 1-3, sizes 2-4, <= 36 vertices, units 1-2) with single and combined constraint "
         "families {monotonicity, unimodality, Edgeworth, trapezoid, monotonic dominance, range dominance, joint "
         "monotonicity, joint unimodality (1-3 jointly unimodal dims of size >= 3, valley / peak; alone and combined "
@@ -31,8 +32,10 @@ ASSUMPTIONS = ["float64; model comparison rtol 1e-9*scale",
                "last_change key repeats, Props/C08Shared.lean also for constraint tuples listed twice (shared slots: "
                "Hundal-Deutsch's variant); on the REAL code, and for range dominance, the nearest-point and "
                "violation->0 clauses are tested against a QP solver with tolerance 2e-4*scale",
-               "(d,d) dominance / joint-monotonicity pairs are not modelled (the real projection reads axis d+1 or "
-               "raises: finding F-C08-c, repair repo_patches/F-C08-c.diff)",
+               "(d,d) dominance / joint-monotonicity pairs are rejected at construction (fix 18dd711, formerly F-C08-c): "
+               "must-reject oracle; the model side is Tfl.C08.selfPair_rejected / verifyLattice_cfgShape",
+               "joint unimodality direction: any capitalisation of 'valley' is a valley, of 'peak' a peak (fix cdf6c9e, "
+               "formerly F-C08-d); the wire flag and the independent violation functions lower-case the string",
                "joint_unimodalities: modelled (Tfl.Lat.hyperplaneGroup); combined configurations are generated only where "
                "lattice_lib.verify_hyperparameters accepts them; LatticeConstraints with joint unimodalities is compared "
                "non-strict and strict (the strict finalisation ignores joint unimodality in code and model alike)"]
@@ -96,6 +99,14 @@ def gen_cfg(rng, fams, max_vertices=36):
   return cfg
 
 
+def spell(rng, direction, p=0.25):
+  """The direction in another spelling verify_hyperparameters accepts (it lower-cases; so does the projection
+  since cdf6c9e)."""
+  if rng.random() >= p:
+    return direction
+  return rng.choice([direction.capitalize(), direction.upper(), direction[0] + direction[1:].upper()])
+
+
 def add_joint_unimodality(rng, cfg):
   """Adds one (sometimes two) joint unimodality constraints on non-monotone dims; dims of size >= 3 are
   grown where needed (verify_hyperparameters wants size >= 3 and no monotonicity on these dims)."""
@@ -115,7 +126,7 @@ def add_joint_unimodality(rng, cfg):
     if not big:
       break
     sizes[rng.choice(big)] -= 1
-  cfg["ju"].append((tuple(dims), rng.choice(["valley", "peak"])))
+  cfg["ju"].append((tuple(dims), spell(rng, rng.choice(["valley", "peak"]))))
   rest = [d for d in free if d not in dims and sizes[d] >= 3]
   if rest and rng.random() < 0.2:
     cfg["ju"].append(((rng.choice(rest),), rng.choice(["valley", "peak"])))
@@ -145,6 +156,7 @@ def gen_multi(rng, mode, max_vertices=27, max_ju_dims=3):
     reps = 3 if rng.random() < 0.2 else 2
     dr = lambda: rng.choice([1, -1])
     vp = lambda: rng.choice(["valley", "peak"])
+    opp = lambda d: "peak" if d.lower() == "valley" else "valley"
     if kind.startswith("ju") or fam == "ju":
       k = rng.choice([1, 2, 2]) if rank == 2 else rng.choice([1, 2, 2, 3])
       k = min(k, max_ju_dims)
@@ -155,9 +167,10 @@ def gen_multi(rng, mode, max_vertices=27, max_ju_dims=3):
       jd = tuple(dims[:k])
       d0 = vp()
       if kind == "ju_same" or kind == "dup":
-        cfg["ju"] = [(jd, d0)] * (reps if kind == "dup" else 2)
+        # the same constraint twice, sometimes in two spellings: one dict key (lower-cased direction)
+        cfg["ju"] = [(jd, spell(rng, d0, 0.4)) for _ in range(reps if kind == "dup" else 2)]
       elif kind == "ju_opp":
-        cfg["ju"] = [(jd, d0), (jd, "peak" if d0 == "valley" else "valley")]
+        cfg["ju"] = [(jd, spell(rng, d0)), (jd, spell(rng, opp(d0)))]
       elif kind == "ju_perm":
         pd = list(jd)
         while tuple(pd) == jd:
@@ -249,7 +262,7 @@ def ju_hyperplanes(cfg):
     dims = list(dims)
     others = [d for d in range(rank) if d not in dims]
     centre = [sizes[d] // 2 for d in dims]
-    sign = 1 if direction == "valley" else -1
+    sign = 1 if direction.lower() == "valley" else -1
     for v in itertools.product(*[range(sizes[d]) for d in dims]):
       for o in itertools.product([-1, 1], repeat=len(dims)):
         terms, ok = [], True
@@ -305,7 +318,7 @@ def feasible_with_ju(rng, cfg, units):
     for idx in itertools.product(*[range(s) for s in sizes]):
       c = Fraction(0)
       for dims, direction in cfg["ju"]:
-        c += (1 if direction == "valley" else -1) * k * sum(abs(idx[d] - sizes[d] // 2) for d in dims)
+        c += (1 if direction.lower() == "valley" else -1) * k * sum(abs(idx[d] - sizes[d] // 2) for d in dims)
       cone.append(c)
     cand = [a + b for a, b in zip(col, cone)]
     t = np.array([float(x) for x in cand]).reshape(sizes)
@@ -341,7 +354,7 @@ def _dykstra_call(lattice_lib, cfg, w, iters, jus):
 
 def ju_tok(cfg):
   """joint unimodalities on the wire: `d1,d2,...,flag;...` with flag 1 = valley, 0 = peak"""
-  return il2([list(d) + [1 if dr == "valley" else 0] for d, dr in cfg.get("ju", [])])
+  return il2([list(d) + [1 if dr.lower() == "valley" else 0] for d, dr in cfg.get("ju", [])])
 
 
 def model_line(cfg, col, iters):
@@ -521,6 +534,8 @@ def finish(ctx, lines, pending):
     cls = "+".join(case["fams"])
     key = dict(suite="dykstra", fams=cls, kind=kind)
     ctx.count("fam:" + cls)
+    if any(dr != dr.lower() for _, dr in cfg.get("ju", [])):
+      ctx.count("ju_direction_capitalised")
     ctx.count("iters:%d" % iters)
     rs = replies[pos:pos + units]
     pos += units
@@ -622,7 +637,8 @@ def strict_call(cfg, wf, iters):
 
 def joint_unimodality_case(ctx, rng, spelled=False, fixed=None):
   """`spelled`: the direction in another spelling verify_hyperparameters accepts (it lower-cases the string:
-  'Valley', 'PEAK', ...); the constraint meant is the lower-cased one."""
+  'Valley', 'PEAK', ...); the constraint meant is the lower-cased one (the projection compared the string as given
+  before fix cdf6c9e and enforced a PEAK for 'Valley': fixed finding F-C08-d)."""
   if fixed is not None:
     sizes, dims, spelling = fixed
     rank = len(sizes)
@@ -730,53 +746,51 @@ def multi_convergence(ctx, rng):
     convergence_case(ctx, cfg, fams, kind, w, wf)
 
 
-def self_pair_kernel(rng, sizes, d):
-  """A kernel that does not depend on feature d and is non-decreasing in every other feature: feasible for any
-  monotonicity-type constraint that names only feature d (and for monotonicities on all features)."""
-  rank = len(sizes)
-  slopes = [Fraction(0) if k == d else Fraction(rng.randint(0, 6), 4) for k in range(rank)]
-  bumps = [[Fraction(0)] * sizes[k] if k == d else sorted(Fraction(rng.randint(0, 4), 4) for _ in range(sizes[k]))
-           for k in range(rank)]
-  return [[sum(slopes[k] * idx[k] + bumps[k][idx[k]] for k in range(rank))]
-          for idx in itertools.product(*[range(x) for x in sizes])]
-
-
 def self_pair_cases(ctx, rng, fixed=None):
-  """(d, d) pairs: `monotonic_dominances=[(d, d)]`, `range_dominances=[(d, d)]`, `joint_monotonicities=[(d, d)]`.
-  Where verify_hyperparameters accepts them the projection must not raise and must leave alone a kernel that
-  does not depend on feature d (oracle only; not modelled)."""
+  """(d, d) pairs: `monotonic_dominances=[(d, d)]`, `range_dominances=[(d, d)]`, `joint_monotonicities=[(d, d)]`,
+  alone and after a valid pair. Since fix 18dd711 verify_hyperparameters, LatticeConstraints and Lattice (at build,
+  where the layer verifies these arguments) must reject them with ValueError (before, the projection unstacked axis d twice: it raised inside project_by_dykstra
+  or silently constrained the pair (d, d+1))."""
+  from tensorflow_lattice.python import lattice_lib, lattice_layer
+  import tensorflow_lattice as tfl
+  arg = dict(md="monotonic_dominances", rd="range_dominances", jm="joint_monotonicities")
   todo = [fixed] if fixed is not None else [None] * ctx.n(9, 45)
   for i, fx in enumerate(todo):
     if fx is not None:
       fam, sizes, d = fx
+      first = []
     else:
       fam = ["md", "rd", "jm"][i % 3]
       rank = rng.choice([2, 2, 3])
       sizes = [rng.randint(2, 4) for _ in range(rank)]
       d = rng.randrange(rank)
+      first = [tuple(rng.sample(range(rank), 2))] if rng.random() < 0.3 else []
     rank = len(sizes)
-    cfg = dict(sizes=sizes, mono=[1] * rank if fam != "jm" else [0] * rank, ew=[], tz=[], uni=[0] * rank, md=[], rd=[],
-               jm=[], ju=[], lo=None, hi=None)
-    cfg[fam] = [(d, d)]
-    key = dict(suite="self_pair", fams=fam, kind="feasible")
-    if not accepted(cfg):
-      ctx.count("self_pair_rejected:" + fam)
-      ctx.case(sig=("self_pair_rejected", fam, tuple(sizes), d))
-      continue
-    ctx.count("self_pair_accepted:" + fam)
-    w = self_pair_kernel(rng, sizes, d)
-    wf = np.array([[float(v) for v in row] for row in w])
-    case = dict(cfg=cfg, fam=fam, d=d, w=w, iters=3, fams=["self", fam], kind="feasible")
-    ctx.case(sig=("self_pair", fam, tuple(sizes), d), sample=case)
-    try:
-      out = real_dykstra(cfg, wf, 3)
-    except Exception as e:
-      ctx.fail("raises", key, case, classify_exc(e) + ": " + str(e)[:200],
-               "accepted (%d, %d) pair: the projection raises" % (d, d))
-      continue
-    mv = float(np.max(np.abs(out - wf)))
-    if mv > 1e-9 * max_abs(wf.ravel()):
-      ctx.fail("fixpoint", key, case, out, "kernel independent of feature %d moved by %g" % (d, mv))
+    mono = [1] * rank if fam != "jm" else [0] * rank
+    pairs = first + [(d, d)]
+    key = dict(suite="self_pair", fams=fam, kind="must_reject")
+    case = dict(cfg=dict(sizes=sizes, mono=mono), fam=fam, d=d, pairs=pairs, fams=["self", fam], kind="must_reject")
+    ctx.case(sig=("self_pair", fam, tuple(sizes), d, bool(first)), sample=case)
+    builders = [
+        ("verify_hyperparameters", lambda: lattice_lib.verify_hyperparameters(
+            lattice_sizes=list(sizes), monotonicities=list(mono), **{arg[fam]: list(pairs)})),
+        ("LatticeConstraints", lambda: lattice_layer.LatticeConstraints(
+            lattice_sizes=list(sizes), monotonicities=list(mono), **{arg[fam]: list(pairs)})),
+        # the layer verifies its dominances / joint monotonicities when it is built
+        ("Lattice.build", lambda: tfl.layers.Lattice(
+            lattice_sizes=list(sizes), monotonicities=list(mono), **{arg[fam]: list(pairs)}).build((None, rank)))]
+    for name, build in builders:
+      try:
+        build()
+      except ValueError:
+        ctx.count("self_pair_rejected:%s:%s" % (fam, name))
+        continue
+      except Exception as e:
+        ctx.fail("wrong_exception", key, case, classify_exc(e) + ": " + str(e)[:200],
+                 "%s must reject the (%d, %d) pair with ValueError" % (name, d, d))
+        continue
+      ctx.fail("must_reject", key, case, name + " accepted",
+               "%s accepts the %s pair (%d, %d)" % (name, arg[fam], d, d))
 
 
 def layer_cases(ctx, rng):
